@@ -34,7 +34,7 @@ ASSUMPTIONS = ['vf.ball enclosures are rigorous (self-test python -m vf.ball); e
                'operands are injected exactly (iv.mpf((mpf,mpf)) keeps the raw endpoints); containment is tested at sample '
                'points only -- a failure strictly between the samples is not seen']
 SHARD_TIMEOUT = {'quick': 600, 'thorough': 3000}
-LEVEL_TEXT = ('exploration: ~4*10^5 (quick) / ~5*10^6 (thorough) interval operations on the real code, each result tested '
+LEVEL_TEXT = ('exploration: ~1.4*10^5 (quick) / ~8*10^5 (thorough) interval operations on the real code, each result tested '
               'against rigorous enclosures of the exact value at ~10 sample points of the inputs; generators aim exact '
               'values into the guard bits of an endpoint and cover every sign case of the interval routines')
 LEVEL_NOTE = ('trusted base: vf/ball.py, vf/exactq.py, CPython ints; gamma family decided by a consensus enclosure '
@@ -42,7 +42,7 @@ LEVEL_NOTE = ('trusted base: vf/ball.py, vf/exactq.py, CPython ints; gamma famil
               'are tested')
 TECHNIQUE = 'runtime oracle monitor on interval results + StoreHook on stored intervals + ReturnTap on directed primitives'
 
-CASES = {'quick': 9000, 'thorough': 80000}
+CASES = {'quick': 9000, 'thorough': 50000}
 NSHARDS = 16
 OPS = (['add', 'sub', 'mul', 'div'] * 3 + ['pow_int'] * 4 + ['pow_real'] * 3 + ['unary'] * 2 + ['exp'] * 4 + ['log'] * 4 +
        ['sqrt'] * 2 + ['sin', 'cos'] * 3 + ['tan'] * 3 + ['atan2'] * 4 + ['gamma'] * 3 + ['convert'] * 5 + ['string'] * 5)
@@ -187,6 +187,7 @@ class Ctx(object):
         self.sm = None
         self.tap = None
         self.tap_checked = 0
+        self.last_exc = None
 
     def cons(self):
         if self.consensus is None:
@@ -284,6 +285,7 @@ def run_checked(ctx, op, prec, call, inputs, point_oracles, extra_checks=None, v
             iv.prec = old
     except Exception as ex:
         ctx.sm.take()
+        ctx.last_exc = ex
         rec.case(ident, False, cls='%s/raised:%s' % (op, type(ex).__name__))
         rec.event('operation raised (no interval returned)')
         return None
@@ -344,6 +346,8 @@ def run_checked(ctx, op, prec, call, inputs, point_oracles, extra_checks=None, v
                     found = key
             elif verdict == 'undecided':
                 rec.undecided('enclosure straddles an endpoint at the precision cap', dict(case, sample=sample, info=info))
+            elif isinstance(info, str) and info.startswith('consensus'):
+                rec.undecided('gamma family: ' + info, dict(case, sample=sample))
             else:
                 rec.event('sample points without finite enclosure (skipped)')
     if consensus_tier:
@@ -659,7 +663,7 @@ def op_pow_real(ctx, p):
             pts.append((kind + '/complex', [fmt_d(d1), fmt_d(d2)], f))
     use_power = r.random() < 0.1
     call = (lambda: ctx.iv.power(X, Y)) if use_power else (lambda: X ** Y)
-    res = run_checked(ctx, 'pow_real', p, call, [x, y], pts, variant='%s.%s%s' % (tx, ty, '.power' if use_power else ''))
+    run_checked(ctx, 'pow_real', p, call, [x, y], pts, variant='%s.%s%s' % (tx, ty, '.power' if use_power else ''))
 
 
 def _mark_complex(f):
@@ -817,9 +821,10 @@ def op_convert(ctx, p):
     if lo != hi:
         qs.append(('mid', (lo + hi) / 2))
     pts = [(k, str(q) if len(str(q)) < 200 else 'fraction', (lambda wp, q=q: RB.from_fraction(q, wp))) for k, q in qs]
+    ctx.last_exc = None
     res = run_checked(ctx, 'convert', p, call, [], pts, variant=variant,
                       info={'value': [repr(v1)[:400]] + ([repr(v2)[:400]] if form not in ('single', 'binop') else [])})
-    if res is None and ('Fraction' in variant or 'mpq' in variant):
+    if res is None and ('Fraction' in variant or 'mpq' in variant) and isinstance(ctx.last_exc, NotImplementedError):
         # the statement names Fractions among the convertible types
         ctx.rec.case(('convert-unsupported', variant), True, cls='convert/unsupported-rational-type')
         ctx.rec.violation('C14/convert/rational-type-not-accepted',
